@@ -9,7 +9,14 @@ namespace scen_future {
 enum Mode { M_C01, M_C02, M_C03 };
 
 // resolver actions
-enum { A_VALUE, A_EXC, A_DROP, A_NOTHING, A_ASYNC_VALUE, A_ASYNC_THROW, A_COUNT };
+enum { A_VALUE, A_EXC, A_DROP, A_NOTHING, A_ASYNC_VALUE, A_ASYNC_THROW, A_COUNT,
+       // extended forms (chosen by a trailing program byte, so that older replay files keep their meaning)
+       A_MOVE_THEN_VALUE = A_COUNT,   // promise<T> mine(std::move(shared)); mine(value)       - the move is itself a claim
+       A_MOVE_ASSIGN_DTOR,            // promise<T> mine; mine = std::move(shared); ~mine      - resolves to no-value if the move got it
+       A_BIND,                        // auto fn = shared.bind(value); fn()
+       A_UNHANDLED,                   // catch (...) { shared.unhandled_exception(); }
+       A_DEFAULT_DTOR,                // promise_with_default<T> d(std::move(shared), dflt); ~d - resolves to the default value
+       A_ALL };
 // waiter kinds
 enum { W_COAWAIT, W_HASVALUE, W_WAIT, W_SYNC, W_SUBSCRIBE, W_CALLBACK_AWAIT, W_POLL, W_FORCE_WAIT_IN_CORO, W_OPERATOR_BOOL, W_COUNT };
 
@@ -40,12 +47,14 @@ inline Prog decode(hz::Reader &r, Mode m) {
     }
     p.moves = (uint8_t)r.mod(3);
     p.resolvers_first = r.flag();
+    for (auto &x : p.res) { unsigned e = r.mod(8); if (e >= 3) x.action = (uint8_t)(A_MOVE_THEN_VALUE + (e - 3)); }
     return p;
 }
 
 inline std::string describe(const Prog &p) {
     static const char *vt[] = {"int", "void", "move-only", "int&", "Counted"};
-    static const char *act[] = {"value", "exception", "drop", "nothing", "async completes with value", "async throws"};
+    static const char *act[] = {"value", "exception", "drop", "nothing", "async completes with value", "async throws",
+        "move the promise into a local, then value", "move-assign the promise into a local and destroy it", "bind(value) then call", "unhandled_exception() in a catch block", "move into promise_with_default and destroy it"};
     static const char *wk[] = {"co_await f", "co_await f.has_value()", "f.wait()", "f.sync()", "subscribe(custom awaiter)", "callback_await", "poll ready()", "force_wait() inside a coroutine", "if (f) ... *f (operator bool / operator*)"};
     hz::Desc d;
     d << "future<" << vt[p.vt] << ">, promise moved " << (unsigned)p.moves << "x, " << (p.resolvers_first ? "resolvers spawned first" : "waiters spawned first") << "; resolvers:";
@@ -99,18 +108,33 @@ struct Ctx {
     }
     // resolver payload for index i
     static int value_of(int i) { return 10 + i; }
-    bool call_value(int i) {
-        if constexpr (VT == 0) return (*prom)(value_of(i));
-        else if constexpr (VT == 1) return (*prom)();
-        else if constexpr (VT == 2) return (*prom)(val::MoveOnly(value_of(i)));
-        else if constexpr (VT == 3) return (*prom)(slots[i]);
-        else return (*prom)(val::Counted(value_of(i)));
+    bool call_value(int i) { return call_value_on(*prom, i); }
+    bool call_value_on(cocls::promise<T> &pr, int i) {
+        if constexpr (VT == 0) return pr(value_of(i));
+        else if constexpr (VT == 1) return pr();
+        else if constexpr (VT == 2) return pr(val::MoveOnly(value_of(i)));
+        else if constexpr (VT == 3) return pr(slots[i]);
+        else return pr(val::Counted(value_of(i)));
+    }
+    bool call_bound(int i) {
+        if constexpr (VT == 0) { auto fn = prom->bind(value_of(i)); return fn(); }
+        else if constexpr (VT == 1) { auto fn = prom->bind(); return fn(); }
+        else if constexpr (VT == 2) { auto fn = prom->bind(val::MoveOnly(value_of(i))); return fn(); }
+        else if constexpr (VT == 3) return call_value(i);          // bind() stores decayed copies: not meaningful for a reference result
+        else { auto fn = prom->bind(val::Counted(value_of(i))); return fn(); }
+    }
+    bool default_dtor(int i) {
+        if constexpr (VT == 0 || VT == 2 || VT == 4) {
+            cocls::promise_with_default<T> d(std::move(*prom), 200 + i);
+            return (bool)d;                   // nobody else can reach d: its destructor resolves iff the move obtained the future
+        } else return call_value(i);
     }
     int expected_code(int action, int i) const {
         switch (action) {
-            case A_VALUE: case A_ASYNC_VALUE: return VT == 1 ? 0 : value_of(i);
-            case A_EXC: case A_ASYNC_THROW: return 1000 + i;
-            default: return -1;
+            case A_VALUE: case A_ASYNC_VALUE: case A_MOVE_THEN_VALUE: case A_BIND: return VT == 1 ? 0 : value_of(i);
+            case A_EXC: case A_ASYNC_THROW: case A_UNHANDLED: return 1000 + i;
+            case A_DEFAULT_DTOR: return (VT == 0 || VT == 2 || VT == 4) ? 200 + i : (VT == 1 ? 0 : value_of(i));
+            default: return -1;         // drop, nothing, move-assign + destruction
         }
     }
 };
@@ -137,6 +161,11 @@ void resolver_thread(Ctx<VT> &c, int i) {
         case A_EXC: r.won = (bool)(*c.prom)(std::make_exception_ptr(val::TestExc(i))); break;
         case A_DROP: r.won = (bool)(*c.prom)(cocls::drop); break;
         case A_NOTHING: break;
+        case A_MOVE_THEN_VALUE: { cocls::promise<typename Tr<VT>::T> mine(std::move(*c.prom)); hz::upoint(); r.won = c.call_value_on(mine, i); } break;
+        case A_MOVE_ASSIGN_DTOR: { cocls::promise<typename Tr<VT>::T> mine; mine = std::move(*c.prom); r.won = (bool)mine; hz::upoint(); } break;
+        case A_BIND: r.won = c.call_bound(i); break;
+        case A_UNHANDLED: try { throw val::TestExc(i); } catch (...) { r.won = c.prom->unhandled_exception(); } break;
+        case A_DEFAULT_DTOR: r.won = c.default_dtor(i); break;
         case A_ASYNC_VALUE: case A_ASYNC_THROW: {
             auto co = producer<VT>(c, i, r.action == A_ASYNC_THROW);
             r.won = (bool)co.start(*c.prom);
@@ -357,6 +386,8 @@ void run_t(const Prog &p, Mode mode) {
     if (mode == M_C01) hz::set_nontrivial(overlapped > 0 && st.preempt_in_lib > 0);
     else hz::set_nontrivial((cls_mask & 6) != 0 && st.switches > 0);
     hz::count(0, overlapped);
+    unsigned ext = 0; for (auto &x : p.res) if (x.action >= A_COUNT) ext++;
+    hz::count(1, ext);
 }
 
 inline void run(hz::Reader &r, Mode mode) {
@@ -373,6 +404,6 @@ inline void run(hz::Reader &r, Mode mode) {
 static const char *const class_names[] = {
     "no-waiter", "waiters:before", "waiters:overlap", "waiters:before+overlap", "waiters:after", "waiters:before+after",
     "waiters:overlap+after", "waiters:before+overlap+after"};
-static const char *const counter_names[] = {"overlapping_parties"};
+static const char *const counter_names[] = {"overlapping_parties", "resolvers_using_move_bind_unhandled_or_default_forms"};
 
 } // namespace scen_future
